@@ -702,7 +702,19 @@ class Engine:
         if isinstance(t, ast.Name):
             env[t.id] = v
         elif isinstance(t, (ast.Tuple, ast.List)):
-            if not isinstance(v, (tuple, list)) or len(v) != len(t.elts):
+            if not isinstance(v, (tuple, list)):
+                raise Unsupported("unpack")
+            stars = [i for i, x in enumerate(t.elts) if isinstance(x, ast.Starred)]
+            if stars:
+                if len(stars) > 1 or len(v) < len(t.elts) - 1:
+                    raise Unsupported("unpack")
+                i = stars[0]
+                tail = len(t.elts) - i - 1
+                parts = list(v[:i]) + [list(v[i:len(v) - tail])] + list(v[len(v) - tail:])
+                for tt, vv in zip(t.elts, parts):
+                    self.assign(tt.value if isinstance(tt, ast.Starred) else tt, vv, env)
+                return
+            if len(v) != len(t.elts):
                 raise Unsupported("unpack")
             for tt, vv in zip(t.elts, v):
                 self.assign(tt, vv, env)
